@@ -347,6 +347,10 @@ package mobius
 //@   before call hotline.NewField#3 assert isnil(reqdata(0, 204)) ==> same(arg1, callres("(*hotline.flattenedFileObject).TransferSize"))
 //@   before call hotline.NewField#3 assert !isnil(reqdata(0, 204)) ==> len(arg1) == 4 && ptsto(arg1, hlFile.Ffo.FlatFileDataForkHeader.DataSize)
 //@   before call hotline.NewField#4 assert arg0[0] == 0 && arg0[1] == 207 && len(arg1) == 4 && ptsto(arg1, hlFile.Ffo.FlatFileDataForkHeader.DataSize)
+// a request that carries resume data is served as a resumed transfer whatever the offset (offset 0
+// included): the transfer remembers the resume data, so the handler on the transfer port sends no
+// resource fork header after the data fork -- in step with the announced size
+//@   before call (*hotline.ClientConn).NewReply assert !isnil(reqdata(0, 203)) ==> callres("(*hotline.ClientConn).NewFileTransfer").FileResumeData != nil
 
 // ---------------------------------------------------------------------------------
 // C10: the folder download reply announces the item count and total size computed for the very
@@ -688,6 +692,29 @@ package mobius
 //@   before call (*hotline.ClientConn).NewErrReply#2 assert priv(clientConn, 23)
 //@   before any call (*hotline.ClientConn).NewErrReply#3 assert false
 //@   before any call (*hotline.ClientConn).NewErrReply#4 assert false
+
+// C18: reloading the news file reproduces the stored tree: what Load leaves in memory is what the
+// YAML decoder produced from the file -- nothing is rewritten, dropped or "normalised" afterwards.
+//@ func (n *ThreadedNewsYAML) Load() (err error)
+//@   property C18
+//@   once call (*gopkg.in/yaml.v3.Decoder).Decode
+//@   before any call mobius.* assert !called("(*gopkg.in/yaml.v3.Decoder).Decode")
+//@   before any store ThreadedNews.Categories assert !called("(*gopkg.in/yaml.v3.Decoder).Decode")
+//@   before any store ThreadedNewsYAML.ThreadedNews assert !called("(*gopkg.in/yaml.v3.Decoder).Decode")
+
+// C15 / C16: the account list is read off the table every time (a list that is remembered across
+// calls goes stale when an account is edited): no return in front of the loop over the table.
+//@ func (am *YAMLAccountManager) List() (r []hotline.Account)
+//@   property C15 C16
+//@   loop 1 always
+//@   loop 1 complete
+//@   guarded_by am.mu: accounts
+
+// C11: a comment set together with a rename ends up on the renamed file: the info fork is written
+// through the wrapper while its paths still name the file, i.e. before the wrapper is moved.
+//@ func HandleSetFileInfo(cc *hotline.ClientConn, t *hotline.Transaction) (res []hotline.Transaction)
+//@   property C11
+//@   before any call (*hotline.fileWrapper).InfoForkWriter assert !called("(*hotline.fileWrapper).Move")
 
 // ---------------------------------------------------------------------------------
 // C18: creating a category or bundle never replaces an existing item (which would discard its
